@@ -78,7 +78,7 @@ package common
 //@ define effPageSize(ps int) int = ps == 0 ? 15 : ps
 
 //@ func (o columnPaginator[ResourceType, OptionsType]) BuildCursor(ret []ResourceType) (r *paginate.Cursor[ResourceType], err error)
-//@   property C21
+//@   property C21 C38
 //@   requires o.query.Order != nil
 //@   requires len(ret) <= effPageSize(o.query.PageSize) + 1
 //@   requires o.query.PaginationID != nil ==> o.query.Bottom != nil
